@@ -5,6 +5,13 @@ CONSTANTS
   NReads = 2
   SizedOutsideLock = FALSE
   ShutdownInline = FALSE
+  PeersErrInline = FALSE
   ClientGuarded = TRUE
+  NInformers = 0
+  LoopVarShared = FALSE
+  NCheckers = 0
+  NChecks = 0
+  MaxVer = 1
+  DistShared = FALSE
   Part = "alerts"
 INVARIANTS NoIndexPanic NoTear
